@@ -1,6 +1,7 @@
 /- Line-protocol driver for the session model. -/
 import Paho.Driver.Common
 import Paho.Model.Session
+import Paho.Model.SessionInv
 namespace Paho.Driver
 open Paho
 
@@ -39,7 +40,12 @@ def b01 (b : Bool) : String := if b then "1" else "0"
 
 def showEv : Ev → Option String
   | .tx c b => some s!"tx{c}:{toHex b}"
-  | .sclose c => some s!"sclose{c}"
+  | .sopen c => some s!"sopen{c}"
+  | .sclose c _ => some s!"sclose{c}"
+  | .queued _ _ => none
+  | .qPublish _ _ _ _ _ => none
+  | .qPubrel _ _ _ => none
+  | .completed _ _ => none
   | .skOpen c => some s!"open{c}"
   | .skClose c => some s!"close{c}"
   | .skRegW c => some s!"regw{c}"
@@ -142,5 +148,31 @@ def sessionStep (s : S) (ws : List String) : S × String :=
       ({ s' with log := [] }, ";".intercalate evs ++ " | " ++ probe s')
 
 def sessionDrv : Drv := { σ := S, init := S.init {} 4 t0, step := sessionStep }
+
+/-- same protocol, but the output is the list of invariants that FAIL after the op (empty = all hold);
+the full log is kept so that the stream invariant can be evaluated. -/
+def sessionInvStep (st : S × Bool) (ws : List String) : (S × Bool) × String :=
+  let (s, conf) := st
+  match ws with
+  | "cfg" :: rest =>
+    let (c, proto) := parseCfg rest
+    let s := S.init c proto t0
+    ((s, true), " ".intercalate s.failing)
+  | _ =>
+    match parseOp ws with
+    | none => (st, "bad-op")
+    | some op =>
+      let conf := conf && opConforming s op
+      let n := s.log.length
+      let s' := s.step op
+      let evs := s'.log.drop n
+      let f := s'.failing ++ (if stepDiscOk evs then [] else ["stepdisc"]) ++ (if invStream s' then [] else ["stream"])
+        ++ (if !conf || s'.invInflightCount then [] else ["inflightcount"])
+        ++ (if !conf || s'.invNoIdleSlot then [] else ["idleslot"])
+        ++ (if !conf || s'.invQueuedBehindFull then [] else ["queuedbehindfull"])
+        ++ (if !s'.cfg.ext || sockTraceOk s'.log then [] else ["socktrace"])
+      ((s', conf), " ".intercalate f)
+
+def sessionInvDrv : Drv := { σ := S × Bool, init := (S.init {} 4 t0, true), step := sessionInvStep }
 
 end Paho.Driver
